@@ -130,6 +130,175 @@ def relabel_pipeline(inp):
     return {"ok": witness is None, "cases": cases, "witness": witness}
 
 
+
+
+def _snapshot(net):
+    import pandas as pd
+    out = {}
+    for k in sorted(net.keys()):
+        v = net[k]
+        if isinstance(v, pd.DataFrame):
+            out[k] = (tuple(v.columns), tuple(str(d) for d in v.dtypes), v.index.tolist(), v.astype(object).where(v.notnull(), None).values.tolist())
+    out["__std_types__"] = {t: sorted(net.std_types[t]) for t in net.std_types} if "std_types" in net else None
+    out["__components__"] = [c.__name__ for c in net.component_list]
+    return out
+
+
+def _base_net(pp):
+    net = pp.create_empty_network(fluid="water")
+    pp.create_junctions(net, 4, 5., 300.)
+    pp.create_pipe_from_parameters(net, 0, 1, 0.1, 100.)
+    pp.create_pipe_from_parameters(net, 1, 2, 0.1, 100.)
+    pp.create_sink(net, 1, 0.1)
+    return net
+
+
+def create_functions(inp):
+    """every create function natively: (a) an invalid junction / pipe / std-type reference or a duplicate index at every
+    such argument position raises and leaves the net unchanged; (b) bulk == one by one; (c) std type == its parameters"""
+    import ast
+    import copy
+    import pandapipes as pp
+    import pandapipes.create as cr
+    from handlers import _valid_args
+    fns = sorted(n.name for n in ast.parse(open(cr.__file__).read()).body if isinstance(n, ast.FunctionDef)
+                 and n.name.startswith("create_") and n.name not in ("create_empty_network", "create_fluid_from_lib"))
+    res = {k: {"ok": True, "cases": 0, "witness": None} for k in (
+        "valid-call-accepted", "invalid-reference-rejected-net-unchanged", "duplicate-index-rejected-net-unchanged",
+        "bulk-equals-one-by-one", "bulk-equals-one-by-one/omitted-name", "std-type-equals-its-parameters",
+        "std-type-equals-its-parameters/heat-transfer-coefficient")}
+
+    def note(k, w):
+        res[k]["ok"] = False
+        if res[k]["witness"] is None:
+            res[k]["witness"] = w
+
+    def extra(fn, args):
+        if fn in ("create_ext_grid", "create_ext_grids"):
+            args.update(p_bar=5., t_k=300.)
+        if fn == "create_valve":
+            args.update(element=2, et="ju")
+        if fn == "create_valves":
+            args.update(elements=[2, 3], et="ju")
+        if fn in ("create_heat_consumer", "create_heat_consumers"):
+            args.update(qext_w=100., controlled_mdot_kg_per_s=0.1)
+        return args
+    for fn in fns:
+        base = _base_net(pp)
+        args = extra(fn, _valid_args(pp, base, fn))
+        net = copy.deepcopy(base)
+        res["valid-call-accepted"]["cases"] += 1
+        try:
+            getattr(pp, fn)(net, **args)
+        except Exception as e:  # noqa
+            note("valid-call-accepted", {"function": fn, "what": "%s: %s" % (type(e).__name__, str(e)[:150]), "args": args})
+            continue
+        bad_variants = []
+        for k, v in args.items():
+            if "junction" in k and k != "nr_junctions":
+                bad_variants.append((k, [98, 99] if isinstance(v, list) else 99))
+            if k == "std_type":
+                bad_variants.append((k, "no_such_type"))
+        if fn in ("create_valve", "create_valves"):
+            bad_variants.append(("pi", None))
+        for k, badv in bad_variants:
+            a2 = dict(args)
+            if k == "pi":
+                a2.update(et="pi", **({"element": 77} if fn == "create_valve" else {"elements": [77, 78]}))
+            else:
+                a2[k] = badv
+            net = copy.deepcopy(base)
+            before = _snapshot(net)
+            res["invalid-reference-rejected-net-unchanged"]["cases"] += 1
+            try:
+                getattr(pp, fn)(net, **a2)
+                note("invalid-reference-rejected-net-unchanged", {"function": fn, "what": "invalid %s accepted" % k, "args": a2})
+            except Exception as e:  # noqa
+                after = _snapshot(net)
+                if after != before:
+                    diff = [t for t in before if after.get(t) != before[t]] + [t for t in after if t not in before]
+                    note("invalid-reference-rejected-net-unchanged",
+                         {"function": fn, "what": "rejected call (%s, %s) changed the net: %s" % (k, type(e).__name__, diff), "args": a2})
+        net = copy.deepcopy(base)
+        idx = getattr(pp, fn)(net, **args)
+        before = _snapshot(net)
+        res["duplicate-index-rejected-net-unchanged"]["cases"] += 1
+        try:
+            getattr(pp, fn)(net, index=idx, **args)
+            note("duplicate-index-rejected-net-unchanged", {"function": fn, "what": "duplicate index accepted", "args": args})
+        except Exception as e:  # noqa
+            if _snapshot(net) != before:
+                note("duplicate-index-rejected-net-unchanged", {"function": fn, "what": "rejected duplicate index changed the net"})
+    pairs = [(f, (f.replace("_from_parameters", "s_from_parameters") if f.endswith("_from_parameters") else f + "s")) for f in fns]
+    pairs = [(a, b) for a, b in pairs if b in fns]
+    for single, bulk in pairs:
+        for populated in (False, True):
+            base = _base_net(pp)
+            sa, ba = extra(single, _valid_args(pp, base, single)), extra(bulk, _valid_args(pp, base, bulk))
+            if populated:
+                a0 = dict(sa)
+                getattr(pp, single)(base, **a0)
+            n1, n2 = copy.deepcopy(base), copy.deepcopy(base)
+            res["bulk-equals-one-by-one"]["cases"] += 1
+            try:
+                if single == "create_junction":
+                    for _ in range(2):
+                        getattr(pp, single)(n1, **sa)
+                else:
+                    listy = [k for k, v in ba.items() if isinstance(v, list)]
+                    for r in range(2):
+                        a1 = dict(sa)
+                        for k in listy:
+                            ks = k[:-1] if k.endswith("s") and k[:-1] in a1 else k
+                            a1[ks] = ba[k][r]
+                        getattr(pp, single)(n1, **a1)
+                getattr(pp, bulk)(n2, **ba)
+                s1, s2 = _snapshot(n1), _snapshot(n2)
+                for t in s1:
+                    if s1[t] == s2.get(t):
+                        continue
+                    if t.startswith("__") or s1[t][:3] != s2[t][:3]:
+                        note("bulk-equals-one-by-one", {"function": bulk, "table": t, "populated": populated,
+                                                        "single": str(s1[t][:3])[:400], "bulk": str(s2.get(t, [None] * 3)[:3])[:400]})
+                        continue
+                    cols = s1[t][0]
+                    for r1, r2 in zip(s1[t][3], s2[t][3]):
+                        for c, x, y in zip(cols, r1, r2):
+                            if x != y:
+                                key = "bulk-equals-one-by-one/omitted-name" if c == "name" else "bulk-equals-one-by-one"
+                                note(key, {"function": bulk, "table": t, "column": c, "single": repr(x), "bulk": repr(y),
+                                           "table_populated_before": populated})
+            except Exception as e:  # noqa
+                note("bulk-equals-one-by-one", {"function": bulk, "what": "%s: %s" % (type(e).__name__, str(e)[:200])})
+    res["bulk-equals-one-by-one/omitted-name"]["cases"] = res["bulk-equals-one-by-one"]["cases"]
+    base = _base_net(pp)
+    for st in sorted(base.std_types["pipe"]):
+        prm = base.std_types["pipe"][st]
+        n1, n2 = copy.deepcopy(base), copy.deepcopy(base)
+        res["std-type-equals-its-parameters"]["cases"] += 1
+        res["std-type-equals-its-parameters/heat-transfer-coefficient"]["cases"] += 1
+        pp.create_pipe(n1, 2, 3, st, 0.3)
+        kw = {}
+        has_u = False
+        if "u_w_per_m2k" in prm and prm["u_w_per_m2k"] == prm["u_w_per_m2k"]:
+            kw["u_w_per_m2k"], has_u = prm["u_w_per_m2k"], True
+        elif "u_w_per_mk" in prm and prm["u_w_per_mk"] == prm["u_w_per_mk"]:
+            kw["u_w_per_m2k"], has_u = prm["u_w_per_mk"] / (prm["outer_diameter_mm"] * np.pi) * 1000., True
+        pp.create_pipe_from_parameters(n2, 2, 3, 0.3, prm["inner_diameter_mm"], outer_diameter_mm=prm.get("outer_diameter_mm"),
+                                       k_mm=prm["k_mm"], **kw)
+        r1 = n1.pipe.drop(columns=["std_type"]).iloc[-1]
+        r2 = n2.pipe.drop(columns=["std_type"]).iloc[-1]
+        for c, a, b in zip(r1.index, r1.values, r2.values):
+            same = (a == b) or (a != a and b != b) or (isinstance(a, float) and isinstance(b, float) and abs(a - b) < 1e-12)
+            if same:
+                continue
+            key = "std-type-equals-its-parameters"
+            if c == "u_w_per_m2k" and not has_u:
+                key = "std-type-equals-its-parameters/heat-transfer-coefficient"
+            note(key, {"std_type": st, "column": c, "from_std_type": repr(a), "from_parameters": repr(b)})
+    return {"checks": res}
+
+
 def main():
     inp = json.load(sys.stdin)
     fn = globals()[inp["what"]]
